@@ -122,7 +122,7 @@ def run_fault(case):
     with vlib.Sandbox("c17") as sb:
         w = C.World(sb, case["entry"])
         w.set_desc(desc)
-        if case["timing"] in ("after_edit", "after_loss"):
+        if case["timing"] in ("after_edit", "after_loss", "forced"):
             r0 = w.run()
             steps.append(["run", sched, False, None])
             obs["first"] = r0["decision"]
@@ -133,6 +133,16 @@ def run_fault(case):
             steps.append(["set", C.sx_project(desc), C.sx_cfg(desc["cfg"])])
         plan = plan_of(desc)
         t = case["target"]
+        kind0 = case.get("kind", "dir")
+        if case.get("linked"):
+            # the generated file is a symbolic link to a regular file (moved elsewhere inside / outside the output
+            # directory and linked back): same content, so nothing changes for the model
+            lt = plan[0] if kind0 == "fsize" else t
+            if os.path.isfile(w.out(lt)) and not os.path.islink(w.out(lt)):
+                dest = w.out("moved_" + lt) if case["linked"] == "inside" else sb.path("elsewhere_" + lt)
+                os.replace(w.out(lt), dest)
+                os.symlink(dest, w.out(lt))
+                obs["link_target"] = dest
         if case.get("lost") and os.path.isfile(w.out(case["lost"])):
             os.remove(w.out(case["lost"]))
             steps.append(["delete", C.model_file_name(case["lost"])])
@@ -161,14 +171,26 @@ def run_fault(case):
                     "record_matches": matches, "rewritten": r["rewritten"], "text": r["text"][-300:]}
         # ---- the faulty run(s)
         before_files = set(n for n, v in w.stat().items() if v != "dir")
-        rf = w.run(fsize0={"fsize": True, "fsize_graph": 6}.get(kind, False))
-        steps.append(["run", sched, False, C.opt(k)])
+        forced = case["timing"] == "forced"            # nothing edited: the run writes because it is forced
+        if forced and case["entry"] != "cli":
+            tmp = copy.deepcopy(desc)
+            tmp["cfg"]["force"] = True
+            w.set_desc(tmp)
+            steps.append(["set", C.sx_project(tmp), C.sx_cfg(tmp["cfg"])])
+        rf = w.run(force=(forced and case["entry"] == "cli"), fsize0={"fsize": True, "fsize_graph": 6}.get(kind, False))
+        steps.append(["run", sched, forced and case["entry"] == "cli", C.opt(k)])
+        if forced and case["entry"] != "cli":
+            w.set_desc(desc)
+            steps.append(["set", C.sx_project(desc), C.sx_cfg(desc["cfg"])])
         obs["fault"] = state(rf)
         obs["record_matched_before"] = None
         if kind in ("fsize", "fsize_graph"):
             # what the failed write left: an empty file (the model records the truncation as a step of its own)
             truncated = rf["decision"] == "failed" and os.path.isfile(w.out(t)) and \
                 w.files().get(t) != ref["files"].get(t)
+            if obs.get("link_target"):
+                obs["fault"]["link_left"] = os.path.islink(w.out(t))
+                obs["fault"]["link_target_size"] = os.path.getsize(obs["link_target"]) if os.path.exists(obs["link_target"]) else None
             obs["fault"]["truncated"] = truncated
             obs["fault"]["existed_before"] = t in before_files
             # since the repair C17-1 nothing may be left under that name; an empty file here is the old behaviour and is
@@ -318,6 +340,23 @@ def fault_cases(tier, rng):
                 for lost in ("dependency-graph.txt", "index.ts"):
                     cases.append({"entry": entry, "mode": mode, "viz": True, "target": "dependency-graph.txt", "timing": "after_loss",
                                   "kind": "fsize_graph", "lost": lost})
+            # generated files that are symbolic links to regular files x faults after the open x [failed run; plain run]
+            for linked in ("inside", "outside"):
+                for timing in ("forced", "after_edit", "after_loss"):
+                    c = {"entry": entry, "mode": mode, "viz": False, "target": "types.ts", "timing": timing, "kind": "fsize", "linked": linked}
+                    if timing == "after_edit":
+                        c["edit"] = "field_add"
+                    if timing == "after_loss":
+                        c["lost"] = "index.ts"
+                    cases.append(c)
+                    if mode == "none":
+                        g = dict(c, viz=True, target="dependency-graph.txt", kind="fsize_graph")
+                        cases.append(g)
+            for timing in ("forced",):
+                cases.append({"entry": entry, "mode": mode, "viz": False, "target": "types.ts", "timing": timing, "kind": "fsize"})
+                for t in ("commands.ts", "index.ts"):
+                    cases.append({"entry": entry, "mode": mode, "viz": False, "target": t, "timing": timing, "kind": "devfull"})
+                    cases.append({"entry": entry, "mode": mode, "viz": False, "target": t, "timing": timing, "kind": "dir"})
             # a project without events: events.ts is not in the plan, the obstacle is harmless
             cases.append({"entry": entry, "mode": mode, "viz": False, "target": "events.ts", "timing": "first", "no_events": True})
     # the init subcommand runs a generation too (flags only: library, visualize_deps); every fault kind
